@@ -8,7 +8,16 @@
        [tpath_pty] (Model/Program.v, the reading [C05_fields_read_as_source] speaks about);
     3. [strip_item (item_of_ir s (ir_of_source d)) = expected_item d] ([source_item_expected]);
     4. composition with [skeleton_full] (C05_skeleton_is_source), [syn_forms] (C02_syn_forms),
-       [generate_lookup] (C01_lookup) and [emit_parses] (C02_emit_parses). *)
+       [generate_lookup] (C01_lookup) and [emit_parses] (C02_emit_parses): [expected_item_of_ir],
+       [source_roundtrip_item], [source_roundtrip_module];
+    5. [expected_item] looks at [order_path lsb] only for bit sequences of order [lsb]; the
+       checker's [expected_of] is [expected_of_settings] ([expected_of_source_settings]);
+    6. examples (ex8: marker field, ex9: enum with [__Ignore], ex5 / ex6 / ex7);
+    7. the checker on the model's own output ([prop_source_roundtrip_of_model]); [pitem_eqb] is
+       reflexive; [instantiation_cf] does not depend on the [canon] form of the arguments;
+    8. the hypotheses as one boolean ([hyp_emission_theorem], Corr/RunC05Emit.v) and its soundness
+       ([hyp_emission_sound]);
+    9. all instantiations print one item up to derives / docs ([one_stripped_item]). *)
 From Coq Require Import List NArith String Bool Lia Arith.
 From V Require Import Base.Util Base.Strings Base.Result Model.Registry Model.Settings Model.Subst
   Model.TypePath Model.Derives Model.Generate Model.Emit Model.Equal Model.WellFormed Model.Shape
@@ -1225,4 +1234,26 @@ Proof.
     + apply (Hnot (obs_of (Panic msg))); [|exact Hcorr]. intros t. discriminate.
   - apply (Hnot (obs_of (Err e))); [|exact Hcorr]. intros t. destruct e; discriminate.
   - apply (Hnot (obs_of (Panic msg))); [|exact Hcorr]. intros t. discriminate.
+Qed.
+
+(** * 9. all instantiations of one definition print one and the same item (up to derives / docs):
+    [one_item_full] (C05_one_item) carried through the emission; no plainness needed *)
+Theorem one_stripped_item defs L r s (otp : bool -> tpath) :
+  RegistryOf defs L r -> (forall sd, In sd defs -> def_okb s sd = true) ->
+  prelude_okb s = true -> order_resolves s otp ->
+  forall d sd, nth_error defs d = Some sd ->
+  forallb (fun f => no_cow_cow (sf_ty f)) (def_sfields sd) = true -> box_names_okb defs sd = true ->
+  forall args1 args2 t1 t2 flat1 flat2 ir1 ir2,
+  instantiation_cf defs sd args1 = true -> map canon args1 = args1 -> compact_fields_okb defs sd args1 = true ->
+  instantiation_cf defs sd args2 = true -> map canon args2 = args2 -> compact_fields_okb defs sd args2 = true ->
+  entry_of defs L r (SApp d args1) t1 -> entry_of defs L r (SApp d args2) t2 ->
+  create_type_ir r s t1 flat1 = Ok (Some ir1) -> create_type_ir r s t2 flat2 = Ok (Some ir2) ->
+  strip_item (item_of_ir s ir1) = strip_item (item_of_ir s ir2).
+Proof.
+  intros HR Hdefs Hprel Hord d sd Hsd Hfrag Hbox args1 args2 t1 t2 flat1 flat2 ir1 ir2
+         Hcf1 Hcan1 Hco1 Hcf2 Hcan2 Hco2 He1 He2 Hc1 Hc2.
+  rewrite <- (strip_item_erase s ir1), <- (strip_item_erase s ir2).
+  rewrite (one_item_full defs L r s otp HR Hdefs Hprel Hord d sd Hsd Hfrag Hbox args1 args2 t1 t2 flat1 flat2 ir1 ir2
+             Hcf1 Hcan1 Hco1 Hcf2 Hcan2 Hco2 He1 He2 Hc1 Hc2).
+  reflexivity.
 Qed.
